@@ -135,6 +135,17 @@ class HeapClass:
         self.invariant = invariant or []
 
 
+WRITERS = {}
+
+
+def writers(field, allowed, props, why=''):
+    """global frame fact: the attribute `field` (of any object) is assigned -- or, for list fields,
+    mutated in place -- only inside the listed functions.  Decided by a scan of the real ast of every
+    repository module (back end 'eval-ast'); it turns the frame part of the handler contracts (which
+    counters, timers and caches a handler leaves alone) from an assumption into a checked fact."""
+    WRITERS[field] = {'allowed': list(allowed), 'props': list(props), 'why': why}
+
+
 GHOSTS = {}
 OBSERVERS = set()
 
